@@ -54,6 +54,8 @@ def export_loaded(pre, post, routines):
                     a = 'BAD_OFFSET'
             elif inst.op_code in (OpCode.JSR, OpCode.ROUTINE):
                 a = str(inst.param0)
+            elif inst.op_code is OpCode.OP:
+                a = getattr(inst.param0, 'name', str(inst.param0))
             elif inst.op_code is OpCode.END:
                 a = 'MATRIX' if inst.param0 is Operand.MATRIX else str(inst.param0)
             out.append({'op': op, 'a': a, 'n': n})
@@ -107,7 +109,10 @@ class VmTrace:
 
     def snap(self):
         pc = self.machine._reg.pc
-        self.rows.append({'pc': pc if isinstance(pc, int) else -1, 'sh': self.shape()})
+        math = getattr(self.machine, '_vm_math', None)
+        depth = getattr(math, 'stack_depth', -1)
+        depth = depth() if callable(depth) else depth
+        self.rows.append({'pc': pc if isinstance(pc, int) else -1, 'sh': self.shape(), 'es': depth if isinstance(depth, int) else -1})
 
     def wrap(self, fn):
         def wrapped(*args, **kwargs):
